@@ -360,7 +360,7 @@ func bytesToSymStr(b []value) value {
 	for j, c := range b {
 		_, args[j] = termOf(c)
 	}
-	return symstr{mkUF(b2sName(len(b)), wStr, args...)}
+	return mkBStr(args)
 }
 
 func isB2S(t *Term) bool { return t.op == OpUF && t.name == b2sName(len(t.args)) }
@@ -423,6 +423,13 @@ func symStrBinop(op token.Token, x, y value) value {
 	case token.NEQ:
 		return mkSym(types.Bool, mkNot(strEq(tx, ty)))
 	case token.ADD:
+		if isBStr(x) || isBStr(y) {
+			a, ok1 := bstrTerms(x)
+			b, ok2 := bstrTerms(y)
+			if ok1 && ok2 {
+				return mkBStr(append(append([]*Term{}, a...), b...))
+			}
+		}
 		return symstr{mkUF("strcat", wStr, tx, ty)}
 	}
 	unsupported("operator %s on a symbolic string", op)
